@@ -88,6 +88,13 @@ theorem childRole_groupContainer (k : String) : childRole (.ent .G) (groupContai
   repeat' split
   all_goals simp [childRole]
 
+/-- containment links — everything except the cross links from one entity to another (metadata, link, positions, extents,
+    data) and the member links of the id-keyed link containers: the target of a containment link is created under its holder -/
+def contains (r r' : Role) : Bool :=
+  match r' with
+  | .ent _ => (match r with | .cont _ => true | .topMeta => true | .topData => true | _ => false)
+  | _ => true
+
 /-- non-empty link names are pairwise distinct -/
 def UniqNames (l : List (String × ObjId)) : Prop := l.Pairwise fun a b => a.1 ≠ b.1 ∨ a.1.isEmpty = true
 
@@ -99,6 +106,9 @@ structure WT (s : Store) (ρ : ObjId → Role) : Prop where
   link : ∀ o l, l ∈ s.linksOf o → l.2 < s.objs.length ∧ childRole (ρ o) l.1 = some (ρ l.2)
   grp : ∀ o, o < s.objs.length → s.isGroupObj o = decide (ρ o ≠ .prop)
   uniq : ∀ o, UniqNames (s.linksOf o)
+  /-- what is contained is younger than what contains it: the containment links form a forest (no section or source is its own
+      descendant), whatever the cross links do -/
+  mono : ∀ o l, l ∈ s.linksOf o → contains (ρ o) (ρ l.2) = true → o < l.2
 
 def upd (ρ : ObjId → Role) (x : ObjId) (r : Role) : ObjId → Role := fun y => if y = x then r else ρ y
 
@@ -113,13 +123,23 @@ theorem Agree.trans {s s' : Store} {ρ ρ' ρ'' : ObjId → Role} (h1 : Agree s 
 
 theorem newFile_wt (id created format version : String) :
     WT (newFile id created format version) (fun o => if o = 0 then .root else if o = 1 then .topMeta else .topData) := by
-  refine ⟨by simp [newFile], rfl, rfl, rfl, ?_, ?_, ?_⟩
+  refine ⟨by simp [newFile], rfl, rfl, rfl, ?_, ?_, ?_, ?_⟩
   · intro o l hl
     simp only [newFile, linksOf, obj?] at hl
     match o with
     | 0 =>
       simp at hl
       rcases hl with rfl | rfl <;> simp [childRole, metadataGrp, dataGrp, newFile]
+    | 1 => simp at hl
+    | 2 => simp at hl
+    | (n + 3) => simp at hl
+  rotate_left 2
+  · intro o l hl _
+    simp only [newFile, linksOf, obj?] at hl
+    match o with
+    | 0 =>
+      simp at hl
+      rcases hl with rfl | rfl <;> simp [metadataGrp, dataGrp]
     | 1 => simp at hl
     | 2 => simp at hl
     | (n + 3) => simp at hl
@@ -160,10 +180,11 @@ theorem WT.modifyAttrs {s : Store} {ρ : ObjId → Role} (h : WT s ρ) (o : ObjI
     have := hobj o'
     simp only [isGroupObj]
     cases h1 : (s.modifyObj o fun ob => { ob with attrs := f ob.attrs }).obj? o' <;> cases h2 : s.obj? o' <;> simp_all
-  refine ⟨by rw [length_modifyObj]; exact h.len, h.r0, h.r1, h.r2, ?_, ?_, ?_⟩
+  refine ⟨by rw [length_modifyObj]; exact h.len, h.r0, h.r1, h.r2, ?_, ?_, ?_, ?_⟩
   · intro o' l hl; rw [hlinks] at hl; rw [length_modifyObj]; exact h.link o' l hl
   · intro o' ho'; rw [length_modifyObj] at ho'; rw [hgrp]; exact h.grp o' ho'
   · intro o'; rw [hlinks]; exact h.uniq o'
+  · intro o' l hl; rw [hlinks] at hl; exact h.mono o' l hl
 
 theorem WT.setAttr {s : Store} {ρ : ObjId → Role} (h : WT s ρ) (o : ObjId) (k v : String) : WT (s.setAttr o k v) ρ :=
   h.modifyAttrs o fun a => setKV a k v
@@ -177,10 +198,11 @@ theorem UniqNames.sublist {l l' : List (String × ObjId)} (h : UniqNames l) (hs 
 /-- dropping links (in one object or in all) keeps the schema -/
 theorem WT.filterLinks {s s' : Store} {ρ : ObjId → Role} (h : WT s ρ) (hlen : s'.objs.length = s.objs.length)
     (hg : ∀ o, s'.isGroupObj o = s.isGroupObj o) (hl : ∀ o, (s'.linksOf o).Sublist (s.linksOf o)) : WT s' ρ := by
-  refine ⟨by rw [hlen]; exact h.len, h.r0, h.r1, h.r2, ?_, ?_, ?_⟩
+  refine ⟨by rw [hlen]; exact h.len, h.r0, h.r1, h.r2, ?_, ?_, ?_, ?_⟩
   · intro o l hlm; rw [hlen]; exact h.link o l ((hl o).subset hlm)
   · intro o ho; rw [hlen] at ho; rw [hg]; exact h.grp o ho
   · intro o; exact (h.uniq o).sublist (hl o)
+  · intro o l hlm; exact h.mono o l ((hl o).subset hlm)
 
 theorem WT.unlink {s : Store} {ρ : ObjId → Role} (h : WT s ρ) (g : ObjId) (n : String) : WT (s.unlink g n) ρ := by
   refine h.filterLinks (by simp [Store.unlink, length_modifyObj]) ?_ ?_
@@ -259,14 +281,14 @@ theorem UniqNames.append {l : List (String × ObjId)} (h : UniqNames l) (n : Str
 /-- H5Lcreate_hard of an existing object under a free name, schema-conform -/
 theorem WT.addLink {s : Store} {ρ : ObjId → Role} (h : WT s ρ) (g : ObjId) (n : String) (t : ObjId)
     (ht : t < s.objs.length) (hr : childRole (ρ g) n = some (ρ t))
-    (hfree : s.child? g n = none ∨ n.isEmpty = true) : WT (s.addLink g n t) ρ := by
+    (hfree : s.child? g n = none ∨ n.isEmpty = true) (hm : contains (ρ g) (ρ t) = true → g < t) : WT (s.addLink g n t) ρ := by
   have hlinks : ∀ o, (s.addLink g n t).linksOf o = if g = o ∧ (s.obj? o).isSome then s.linksOf o ++ [(n, t)] else s.linksOf o := by
     intro o
     simp only [linksOf, Store.addLink, obj?_modifyObj]
     by_cases hh : g = o
     · simp only [hh, if_true, true_and]; cases s.obj? o <;> simp
     · simp [hh]
-  refine ⟨by rw [length_addLink]; exact h.len, h.r0, h.r1, h.r2, ?_, ?_, ?_⟩
+  refine ⟨by rw [length_addLink]; exact h.len, h.r0, h.r1, h.r2, ?_, ?_, ?_, ?_⟩
   · intro o l hl
     rw [length_addLink]
     rw [hlinks] at hl
@@ -292,6 +314,15 @@ theorem WT.addLink {s : Store} {ρ : ObjId → Role} (h : WT s ρ) (g : ObjId) (
       refine (h.uniq o).append n t ?_
       rw [← hc.1]; exact hfree
     · exact h.uniq o
+  · intro o l hl
+    rw [hlinks] at hl
+    split at hl
+    · rename_i hc
+      simp only [List.mem_append, List.mem_singleton] at hl
+      cases hl with
+      | inl h1 => exact h.mono o l h1
+      | inr h1 => subst h1; rw [← hc.1]; exact hm
+    · exact h.mono o l hl
 
 /-- H5Gcreate / H5Dcreate of a new object under a free name, schema-conform: the new object takes the role the schema asks for -/
 theorem WT.allocLink {s : Store} {ρ : ObjId → Role} (h : WT s ρ) (g : ObjId) (n : String) (ob : Obj) (r : Role)
@@ -302,7 +333,7 @@ theorem WT.allocLink {s : Store} {ρ : ObjId → Role} (h : WT s ρ) (g : ObjId)
     intro o ho; simp [upd, Nat.ne_of_lt ho]
   -- first the allocation alone
   have h1 : WT (s.alloc ob).1 (upd ρ s.objs.length r) := by
-    refine ⟨by rw [length_alloc]; have := h.len; omega, ?_, ?_, ?_, ?_, ?_, ?_⟩
+    refine ⟨by rw [length_alloc]; have := h.len; omega, ?_, ?_, ?_, ?_, ?_, ?_, ?_⟩
     · rw [hagree 0 (by have := h.len; unfold ObjId at *; omega)]; exact h.r0
     · rw [hagree 1 (by have := h.len; unfold ObjId at *; omega)]; exact h.r1
     · rw [hagree 2 (by have := h.len; unfold ObjId at *; omega)]; exact h.r2
@@ -339,8 +370,21 @@ theorem WT.allocLink {s : Store} {ρ : ObjId → Role} (h : WT s ρ) (g : ObjId)
           simp [linksOf, this, hob, UniqNames]
         · have : (s.alloc ob).1.objs.length ≤ o := by rw [length_alloc]; unfold ObjId at *; omega
           simp [linksOf, obj?_none_of_ge this, UniqNames]
+    · intro o l hl
+      by_cases ho : o < s.objs.length
+      · simp only [linksOf, obj?_alloc_old s ob o ho] at hl
+        have hlt := (h.link o l hl).1
+        rw [hagree o ho, hagree l.2 hlt]
+        exact h.mono o l hl
+      · by_cases he : o = s.objs.length
+        · subst he
+          have := obj?_alloc_new s ob
+          simp only [alloc_snd] at this
+          simp [linksOf, this, hob] at hl
+        · have : (s.alloc ob).1.objs.length ≤ o := by rw [length_alloc]; unfold ObjId at *; omega
+          simp [linksOf, obj?_none_of_ge this] at hl
   -- then the link
-  refine h1.addLink g n (s.alloc ob).2 (by rw [alloc_snd, length_alloc]; exact Nat.lt_succ_self _) ?_ ?_
+  refine h1.addLink g n (s.alloc ob).2 (by rw [alloc_snd, length_alloc]; exact Nat.lt_succ_self _) ?_ ?_ (fun _ => by rw [alloc_snd]; exact hg)
   · rw [hagree g hg, alloc_snd]; simp [upd, hr]
   · simp only [child?, linksOf, obj?_alloc_old s ob g hg]
     exact hfree
